@@ -2,8 +2,10 @@
    dev mode tracks files.  Statements only; proofs in Proofs/RegProofs.v; the
    abstract specification (entry, areg, a_put, a_register_template_string,
    a_register_template_file, a_unregister, a_clear, a_set_dev, a_has, a_keys,
-   a_load, aworld, a_step, a_exec, abs, abs_world, exec_ops, f6_hit, f6_free,
-   is_clone_or_sel) is Spec/RegistryMap.v.
+   a_load, aworld, a_step, a_exec, abs, abs_world, exec_ops, skeys, reg_inv,
+   is_clone_or_sel) is Spec/RegistryMap.v.  It is the specification the
+   property text states: the entry of a name is what was last successfully
+   registered under it.
 
    exec_ops w ops is the world after the operations (fold of step_op);
    C17_exec_ops_is_run_ops ties it to run_ops. *)
@@ -19,74 +21,76 @@ Theorem C17_exec_ops_is_run_ops : forall w ops o,
 Proof. exact run_ops_snoc. Qed.
 Print Assumptions C17_exec_ops_is_run_ops.
 
-(* Refinement, for EVERY sequence of operations of the case protocol: the
-   abstraction of the concrete two-map world is the abstract one-map world
-   (specification variant AsImplemented: tracking exactly as the code does) *)
-Theorem C17_refines_as_implemented : forall ops : list op,
-  abs_world (exec_ops world_init ops) = a_exec AsImplemented aworld_init ops.
-Proof. exact refines_as_implemented. Qed.
-Print Assumptions C17_refines_as_implemented.
+(* Refinement, for EVERY sequence of operations of the case protocol, with no
+   side condition: the abstraction of the concrete two-map world is the
+   abstract one-map world *)
+Theorem C17_refines : forall ops : list op,
+  abs_world (exec_ops world_init ops) = a_exec aworld_init ops.
+Proof. exact refines. Qed.
+Print Assumptions C17_refines.
 
 (* ... hence every observation agrees: has_template, the key set, the template
    a render of n uses, and the outcome of a further registration *)
-Theorem C17_observations_as_implemented : forall (ops : list op) (n s p : str),
+Theorem C17_observations : forall (ops : list op) (n s p : str),
   let w := exec_ops world_init ops in
-  let aw := a_exec AsImplemented aworld_init ops in
+  let aw := a_exec aworld_init ops in
   snd (step_op w (OHas n)) = Some (ObBool (a_has (acur aw) n))
   /\ snd (step_op w OKeys) = Some (ObKeys (a_keys (acur aw)))
   /\ get_or_load_template (cur w) (w_files w) n = a_load (acur aw) (aw_files aw) n
   /\ snd (step_op w (ORegs n s))
-     = Some (ObUnit (snd (a_register_template_string AsImplemented (acur aw) n s)))
+     = Some (ObUnit (snd (a_register_template_string (acur aw) n s)))
   /\ snd (step_op w (ORegp n s))
-     = Some (ObUnit (snd (a_register_template_string AsImplemented (acur aw) n s)))
+     = Some (ObUnit (snd (a_register_template_string (acur aw) n s)))
   /\ snd (step_op w (ORegf n p))
      = Some (ObUnit (snd (a_register_template_file (acur aw) (aw_files aw) n p))).
-Proof. exact observations_as_implemented. Qed.
-Print Assumptions C17_observations_as_implemented.
+Proof. exact observations_agree. Qed.
+Print Assumptions C17_observations.
 
-(* The specification as the property text states it ("the last successfully
-   registered template for each name"; variant AsStated) is REFUTED on the
-   model (finding F6): dev on; file f = "A"; register n from file f; register
-   n from the string "B"; a render of n still uses the file. *)
-Theorem C17_refuted_stale_source :
-  exists (ops : list op) (n : str),
-    let w := exec_ops world_init ops in
-    let aw := a_exec AsStated aworld_init ops in
-    get_or_load_template (cur w) (w_files w) n <> a_load (acur aw) (aw_files aw) n.
-Proof. exact refuted_stale_source. Qed.
-Print Assumptions C17_refuted_stale_source.
+(* every registry the interpreter can reach satisfies the invariant *)
+Theorem C17_reachable_reg_inv : forall ops : list op, reg_inv (cur (exec_ops world_init ops)).
+Proof. exact reachable_reg_inv. Qed.
+Print Assumptions C17_reachable_reg_inv.
 
-Theorem C17_refuted_stale_source_render :
+(* Finding F6 (a string registration over a tracked name left the file
+   tracked) is fixed.  On its witness — dev on; file f = "A"; register n from
+   file f; register n from the string "B" — a render of n uses "B": *)
+Theorem C17_restated_source_witness :
+  let w := exec_ops world_init
+             [ODev true; OFw (`"f") (`"A"); ORegf (`"n") (`"f"); ORegs (`"n") (`"B")] in
+  exists t,
+    compile2 (`"B") (reg_opts (cur w) (Some (`"n"))) = COk t
+    /\ get_or_load_template (cur w) (w_files w) (`"n") = LoadOk t
+    /\ map_get (r_sources (cur w)) (`"n") = None.
+Proof. exact restated_source_witness. Qed.
+Print Assumptions C17_restated_source_witness.
+
+Theorem C17_restated_source_render :
   run_case [ODev true; OFw (`"f") (`"A"); ORegf (`"n") (`"f"); ORegs (`"n") (`"B");
             ORender 0 (`"n") JNull None]
-  = [ObUnit (COk tt); ObUnit (COk tt); ObRender (RoOk (`"A") [] 1)].
-Proof. exact refuted_stale_source_render. Qed.
-Print Assumptions C17_refuted_stale_source_render.
+  = [ObUnit (COk tt); ObUnit (COk tt); ObRender (RoOk (`"B") [] 1)].
+Proof. exact restated_source_render. Qed.
+Print Assumptions C17_restated_source_render.
 
-(* The two variants of the specification agree on every history that never
-   successfully re-registers, by string or precompiled template, a name whose
-   file is being tracked (f6_free, an executable predicate) ... *)
-Theorem C17_specs_agree_f6_free : forall (ops : list op) (w : aworld),
-  f6_free w ops = true -> a_exec AsImplemented w ops = a_exec AsStated w ops.
-Proof. exact specs_agree_f6_free. Qed.
-Print Assumptions C17_specs_agree_f6_free.
+(* in general: after a successful register_template_string the name is not
+   tracked and a render uses the freshly compiled template, dev on or off *)
+Theorem C17_register_string_untracks :
+  forall (r : registry) (fs : files) (n src : str) (t : template),
+  reg_inv r ->
+  compile2 src (reg_opts r (Some n)) = COk t ->
+  let r' := fst (register_template_string r n src) in
+  snd (register_template_string r n src) = COk tt
+  /\ map_get (r_sources r') n = None
+  /\ get_or_load_template r' fs n = LoadOk t.
+Proof. exact register_string_untracks. Qed.
+Print Assumptions C17_register_string_untracks.
 
-(* ... so on those histories the registry refines the specification as stated *)
-Theorem C17_refines_as_stated : forall ops : list op,
-  f6_free aworld_init ops = true ->
-  abs_world (exec_ops world_init ops) = a_exec AsStated aworld_init ops.
-Proof. exact refines_as_stated. Qed.
-Print Assumptions C17_refines_as_stated.
-
-Theorem C17_observations_as_stated : forall (ops : list op) (n : str),
-  f6_free aworld_init ops = true ->
-  let w := exec_ops world_init ops in
-  let aw := a_exec AsStated aworld_init ops in
-  snd (step_op w (OHas n)) = Some (ObBool (a_has (acur aw) n))
-  /\ snd (step_op w OKeys) = Some (ObKeys (a_keys (acur aw)))
-  /\ get_or_load_template (cur w) (w_files w) n = a_load (acur aw) (aw_files aw) n.
-Proof. exact observations_as_stated. Qed.
-Print Assumptions C17_observations_as_stated.
+Theorem C17_register_template_untracks :
+  forall (r : registry) (fs : files) (n : str) (t : template),
+  reg_inv r ->
+  map_get (r_sources (register_template r n t)) n = None
+  /\ get_or_load_template (register_template r n t) fs n = LoadOk t.
+Proof. exact register_template_untracks. Qed.
+Print Assumptions C17_register_template_untracks.
 
 (* unregistering removes the name; rendering it is TemplateNotFound *)
 Theorem C17_unregister_not_found : forall (ops : list op) (n : str),
@@ -119,6 +123,18 @@ Theorem C17_prevent_indent_at_registration :
      = LoadOk t.
 Proof. exact prevent_indent_at_registration. Qed.
 Print Assumptions C17_prevent_indent_at_registration.
+
+(* ... also when n was tracked before, for every reachable registry *)
+Theorem C17_prevent_indent_at_registration_inv :
+  forall (r : registry) (fs : files) (n src : str) (t : template) (b : bool),
+  reg_inv r ->
+  compile2 src {| o_prevent_indent := r_prevent_indent r; o_is_partial := false; o_name := Some n |}
+    = COk t ->
+  snd (register_template_string r n src) = COk tt
+  /\ get_or_load_template (set_prevent_indent (fst (register_template_string r n src)) b) fs n
+     = LoadOk t.
+Proof. exact prevent_indent_at_registration_inv. Qed.
+Print Assumptions C17_prevent_indent_at_registration_inv.
 
 (* modelled as is: a TRACKED file is recompiled at every render with the flag
    in force at render time *)
